@@ -19,8 +19,8 @@ MODULES = ["CoapVerif.Props.C18", "CoapVerif.Props.C18Runner", "CoapVerif.Findin
 GENERATED = ["Monitor.lean"]
 
 
-def gen_case(rng):
-    level = rng.choice(["unit", "unit", "udp", "tcp", "tcpsrv", "dtlssrv", "tcpsrvdef", "dtlssrvdef"])
+def gen_case(rng, level=None):
+    level = level or rng.choice(["unit", "unit", "udp", "tcp", "tcpsrv", "dtlssrv", "tcpsrvdef", "dtlssrvdef"])
     stream = level in ("tcp", "tcpsrv", "tcpsrvdef")
     can_fail = level in ("unit", "udp")
     period = rng.choice([100, 1000, 1_000_000, 16_000_000_000 // 3])
@@ -214,6 +214,52 @@ def explore(ctx, art):
 
 
 
+
+def server_peers_check(ctx, test_exe, driver, rng, n, prop, clause):
+    """The server levels of C18 as an isolation run for another property (C10): three peers on one real tcp/dtls server -
+    the observed one, one always silent, one heard from before every tick; the observed peer's connection must behave as
+    if it were alone (judge = the single-connection reference monitor; Props/C18 server_conn_is_single_conn)."""
+    lines, owner, cases = [], [], []
+    for ci in range(n):
+        cl, kinds, level = gen_case(rng, rng.choice(["tcpsrv", "dtlssrv", "tcpsrvdef", "dtlssrvdef"]))
+        cases.append(cl)
+        for l in cl:
+            lines.append(l)
+            owner.append(ci)
+    lines.append("end")
+    owner.append(-1)
+    impl = common.run_test_harness(ctx, test_exe, "TestC18", lines, timeout=900, tag="srvpeers")
+    if impl is None or len(impl) != len(lines) or not driver:
+        return
+    dl = [strip_level(l) for l in lines]
+    jl = [l if l.split()[0] in ("cfg", "end") else l + " | " + judge_view(o) for l, o in zip(dl, impl)]
+    rc, judge, _ = common.pipe_lines([driver, "judge"], jl)
+    if rc or len(judge) != len(lines):
+        ctx.broken.append(("model", "server-peers judge run failed", ""))
+        return
+    seen = set()
+    for i, (l, o) in enumerate(zip(lines, impl)):
+        ci = owner[i]
+        if ci < 0 or ci in seen or l.split()[0] in ("cfg", "end"):
+            continue
+        why = None
+        if "close-talkative" in o:
+            why = "the connection of a peer that had sent a message right before this tick was closed"
+        elif o.startswith("panic") or o in ("bad-op", "conn-error"):
+            why = o
+        elif judge[i] != "ok":
+            why = judge[i]
+        if why:
+            seen.add(ci)
+            if len(seen) > 6:
+                break
+            first = sum(1 for k in range(i + 1) if owner[k] == ci)
+            ctx.violations.append(common.Violation(clause, "%s:server-peers:%s" % (prop, cases[ci][0].split()[1]),
+                                                   "three peers on one server (%s), observed peer: %s: observed `%s`: %s" % (cases[ci][0], l, o, why),
+                                                   {"input": cases[ci][:first] + ["end"], "observed": o, "server_peers": True}))
+    ctx.cov["server_peers_cases"] = n
+    ctx.count("server-peers-histories", n)
+
 def runner_check(ctx, test_exe, driver, rng, thorough, prop, clause):
     """Housekeeping runners (pkg/runner/periodic shared ticker, default goroutine-per-registration runner): register / finish /
     tick histories on the real runners (harness/c18 TestC18Runner, synctest) against Model/Runner.lean, which is the
@@ -283,7 +329,7 @@ def replay(ctx, rep):
             print("%s: implementation `%s`  specification `%s`" % (l, o, m))
             bad += o != m
         if bad:
-            print("VIOLATION property=C18 replay=(replayed) still reproduces")
+            print("VIOLATION property=%s replay=(replayed) still reproduces" % ctx.prop)
         return 1 if bad else 0
     if not lines or not lines[0].startswith("cfg"):
         print("replay:", rep.get("what") or rep.get("no_longer_checks"))
@@ -298,5 +344,5 @@ def replay(ctx, rep):
         if j.startswith("violates"):
             bad += 1
     if bad:
-        print("VIOLATION property=C18 replay=(replayed) still reproduces")
+        print("VIOLATION property=%s replay=(replayed) still reproduces" % ctx.prop)
     return 1 if bad else 0
